@@ -122,6 +122,7 @@ type c11Job struct {
 	sid        uint32
 	seq        uint64
 	plen       int
+	closing    byte
 	extra      int
 	scratchA   []byte
 	scratchB   []byte
@@ -202,9 +203,9 @@ func (j *c11Job) try(data []byte, op c11Op, tamper string, touched []string, det
 		return
 	}
 	if accA || accB {
-		what := fmt.Sprintf("%s under %s (payload %d, pad %d): modified message accepted", tamper, j.mname, j.plen, j.extra-16)
+		what := fmt.Sprintf("%s under %s (closing=%d frame, payload %d, pad %d): modified message accepted", tamper, j.mname, j.closing, j.plen, j.extra-16)
 		if accA {
-			what += fmt.Sprintf("; deobfuscate returned sid=%d seq=%d closing=%d payload=%d bytes (sent sid=%d seq=%d closing=0 payload=%d)", fr.StreamID, fr.Seq, fr.Closing, len(fr.Payload), j.sid, j.seq, j.plen)
+			what += fmt.Sprintf("; deobfuscate returned sid=%d seq=%d closing=%d payload=%d bytes (sent sid=%d seq=%d closing=%d payload=%d)", fr.StreamID, fr.Seq, fr.Closing, len(fr.Payload), j.sid, j.seq, j.closing, j.plen)
 		}
 		if accB {
 			what += "; recvDataFromRemote processed it: " + effect
@@ -302,7 +303,7 @@ func (j *c11Job) xor(pos []int, mask []byte, sigExtra string) {
 	} else if len(vkeys) == 2 && vkeys["aead:header-byte-12"] && vkeys["aead:header-byte-13"] {
 		vkey = "aead:header-byte-12"
 	}
-	j.try(data, op, tamper, touched, detail, vkey, fmt.Sprintf("%s|%v|%d|%s|%s", j.mname, j.padded, j.plen, tamper, sigExtra))
+	j.try(data, op, tamper, touched, detail, vkey, fmt.Sprintf("%s|%v|%d|c%d|%s|%s", j.mname, j.padded, j.plen, j.closing, tamper, sigExtra))
 }
 
 // seal builds a message with the REAL encoder under the given method/key; padded selects the seq side.
@@ -427,10 +428,70 @@ func c11Cuts(n int, rng *kit.Rng) []int {
 
 func (j *c11Job) abort() bool { return j.unexpected > 40 }
 
+// c11RecConn records what a session sends.
+type c11RecConn struct {
+	mu     sync.Mutex
+	msgs   [][]byte
+	closed chan struct{}
+	once   sync.Once
+}
+
+func (c *c11RecConn) Write(b []byte) (int, error) {
+	c.mu.Lock()
+	c.msgs = append(c.msgs, append([]byte(nil), b...))
+	c.mu.Unlock()
+	return len(b), nil
+}
+func (c *c11RecConn) count() int                         { c.mu.Lock(); defer c.mu.Unlock(); return len(c.msgs) }
+func (c *c11RecConn) Read(b []byte) (int, error)         { <-c.closed; return 0, io.EOF }
+func (c *c11RecConn) Close() error                       { c.once.Do(func() { close(c.closed) }); return nil }
+func (c *c11RecConn) LocalAddr() net.Addr                { return &net.TCPAddr{} }
+func (c *c11RecConn) RemoteAddr() net.Addr               { return &net.TCPAddr{} }
+func (c *c11RecConn) SetDeadline(t time.Time) error      { return nil }
+func (c *c11RecConn) SetReadDeadline(t time.Time) error  { return nil }
+func (c *c11RecConn) SetWriteDeadline(t time.Time) error { return nil }
+
+// c11RealClosingFrames lets a real sending session produce its closing frames: after `writes` data frames the
+// stream is closed (closeStream: closing=1, random payload of 1..256 bytes) and then the session (closing=2).
+func c11RealClosingFrames(method byte, key [32]byte, writes int) ([][]byte, error) {
+	o, err := MakeObfuscator(method, key)
+	if err != nil {
+		return nil, err
+	}
+	s := c11NewSession(o)
+	rc := &c11RecConn{closed: make(chan struct{})}
+	s.AddConnection(rc)
+	st, err := s.OpenStream()
+	if err != nil {
+		return nil, err
+	}
+	for i := 0; i < writes; i++ {
+		if _, err := st.Write([]byte{byte(i), 0x55}); err != nil {
+			return nil, err
+		}
+	}
+	n0 := rc.count()
+	if err := st.Close(); err != nil {
+		return nil, err
+	}
+	if rc.count() != n0+1 {
+		return nil, fmt.Errorf("Stream.Close sent %d messages", rc.count()-n0)
+	}
+	n1 := rc.count()
+	if err := s.Close(); err != nil {
+		return nil, err
+	}
+	if rc.count() != n1+1 {
+		return nil, fmt.Errorf("Session.Close sent %d messages", rc.count()-n1)
+	}
+	rc.Close()
+	return [][]byte{rc.msgs[n0], rc.msgs[n1]}, nil // the stream-close frame, then the session-close frame
+}
+
 // c11Attack runs every tamper class of the model against one message.
 func (j *c11Job) attack() {
 	n := len(j.orig)
-	sigBase := fmt.Sprintf("%s|%v|%d", j.mname, j.padded, j.plen)
+	sigBase := fmt.Sprintf("%s|%v|%d|c%d", j.mname, j.padded, j.plen, j.closing)
 	// every bit at every position
 	for _, p := range c11Positions(n, j.plen, j.rng) {
 		for bit := 0; bit < 8 && !j.abort(); bit++ {
@@ -693,6 +754,43 @@ func TestVerifC11Replay(t *testing.T) {
 					res.Sample(map[string]any{"method": j.mname, "padded": padded, "payload": size, "message_bytes": len(msg), "extra": j.extra}, 6)
 				})
 			}
+		}
+	}
+	// closing frames (closing=1 stream close, closing=2 session close) as the REAL code paths produce them:
+	// Stream.Close -> closeStream(active) and Session.Close, captured from the sending session's connection
+	for _, m := range aead {
+		for _, pre := range []int{1, 6} { // stream-close frame with seq 1 (padded) / seq 6 (unpadded)
+			m, pre := m, pre
+			work = append(work, func() {
+				j, err := c11NewJob(res, tbl, m, next())
+				if err != nil {
+					return
+				}
+				res.SetRunning(map[string]any{"method": j.mname, "closing_frames_after_writes": pre}, true)
+				frames, err := c11RealClosingFrames(m, j.key, pre)
+				if err != nil {
+					res.Note("closing frames %s/%d: %v", j.mname, pre, err)
+					res.Stat("unsealed-jobs", 1)
+					return
+				}
+				if pre != 1 {
+					frames = frames[:1] // the stream-close frame only: one session-close frame per method is enough
+				}
+				for _, msg := range frames {
+					var fr Frame
+					if err := j.o.deobfuscate(&fr, append([]byte{}, msg...)); err != nil || fr.Closing == closingNothing {
+						res.Violate("valid-frame-rejected:"+j.mname, fmt.Sprintf("closing frame produced by the real close path is not accepted: %v (closing=%d)", err, fr.Closing), nil)
+						continue
+					}
+					j.orig, j.sid, j.seq, j.closing, j.plen = msg, fr.StreamID, fr.Seq, fr.Closing, len(fr.Payload)
+					j.extra = len(msg) - frameHeaderLength - j.plen
+					j.padded = j.extra > 16
+					j.unexpected = 0
+					res.Stat(fmt.Sprintf("closing-frames-attacked:closing=%d", fr.Closing), 1)
+					j.attack()
+					res.Sample(map[string]any{"method": j.mname, "closing": fr.Closing, "seq": fr.Seq, "payload": j.plen, "message_bytes": len(msg)}, 9)
+				}
+			})
 		}
 	}
 	// arbitrary byte strings, all four methods
